@@ -145,6 +145,49 @@ def unknown_ref_is_error(prog, chk):
     chk.floor("A6.unknown-ref", n, 10, "get_element call site")
 
 
+def _withdrawn_when_deferred(prog, body):
+    """every push onto the retry queue in `body` is dominated by a call to a context method that removes an entry from
+    the id map (elem_map)"""
+    CTXP = "svgdx::context::TransformerContext::"
+    withdrawers = set()
+    for b in prog.bodies.values():
+        if not b.path.startswith(CTXP) or "{closure" in b.path:
+            continue
+        for (bb, t, c) in b.call_sites(lambda c: "HashMap" in c.inst and c.path.split("::")[-1] in ("remove", "remove_entry")):
+            o = R.origin(b, t["args"][0], carriers={}) if t["args"] else ("?",)
+            if o[0] == "field" and str(o[1][1][-1]) == ".elem_map":
+                withdrawers.add(b.path)
+    if not withdrawers:
+        return False
+    ws = [bb for (bb, t, c) in body.call_sites(lambda c: c.path in withdrawers)]
+    pushes = [bb for (bb, t, c) in body.call_sites(R.path_endswith("::push")) if "svgdx::events::Tag" in c.inst and "OrderIndex" in c.inst]
+    if not ws or not pushes:
+        return False
+    from sa import discharge as D
+
+    def only_needs_an_element(w, pb):
+        """w precedes pb in the same pass, under no condition beyond those of pb except "the tag is an element"
+        (text / comment tags have no registration to withdraw)"""
+        if body.dominates(w, pb):
+            return True
+        if pb not in body.reach([w]):
+            return False
+        extra = [e for e in D.dominating_edges(body, w) if e not in D.dominating_edges(body, pb)]
+        for (a, x) in extra:
+            t = body.term(a)
+            o = R.origin(body, t["op"], carriers={})
+            ty = ""
+            if o[0] == "rv" and o[1].get("k") == "discr":
+                ty = o[1].get("ty", "")
+            elif o[0] == "call" and "fn" in o[2] and Callee(o[2]["fn"]).path.split("::")[-1] in ("is_some", "is_none"):
+                ty = Callee(o[2]["fn"]).inst
+            if "SvgElement" not in ty or "Option" not in ty:
+                return False
+        return True
+
+    return all(any(only_needs_an_element(w, pb) for w in ws) for pb in pushes)
+
+
 def registration(prog, chk):
     n = 0
     for body in prog.bodies.values():
@@ -177,6 +220,9 @@ def registration(prog, chk):
                 if cont and body.dominates(cont[0], bb):
                     ok = True
                     how = ec.path.split("::")[-1]
+            if not ok and _withdrawn_when_deferred(prog, body):
+                chk.ok("A13.registration", key, where, "the element is registered provisionally (so that it is a <reuse> target at once); when its evaluation fails the registration is withdrawn before the element is queued for retry, so nothing resolves against the unresolved element")
+                continue
             if ok:
                 chk.ok("A13.registration", key, where, f"the element is registered only after its successful {how}()")
             else:
